@@ -58,7 +58,9 @@ func convertToStringBytes(source interface{}) (val []byte, err error) {
 	case []byte:
 		val = s
 	case []rune:
-		val = []byte(string(s))
+		if s != nil {
+			val = []byte(string(s))
+		}
 	case *string:
 		if s != nil {
 			val = []byte(*s)
@@ -68,7 +70,7 @@ func convertToStringBytes(source interface{}) (val []byte, err error) {
 			val = *s
 		}
 	case *[]rune:
-		if s != nil {
+		if s != nil && *s != nil {
 			val = []byte(string(*s))
 		}
 	case nil:
